@@ -561,6 +561,8 @@ func TestVerif_C38(t *testing.T) {
 			continue
 		}
 		var cases [][]int
+		var memoMu sync.Mutex
+		memo := map[string]string{} // single change "dim=value" -> outcome class (for reducing pairs)
 		one := func(ci int, v2 []int) {
 			work := filepath.Join(root, fmt.Sprintf("case-%d", ci))
 			changed := c38Changed(base, v2)
@@ -598,7 +600,17 @@ func TestVerif_C38(t *testing.T) {
 					}
 					v := append([]int(nil), base...)
 					v[i] = v2[i]
-					if o := c38Eval(rec, work+"-r", bs, v, false); o.Class == out.Class {
+					mk := fmt.Sprintf("%d=%d", i, v2[i])
+					memoMu.Lock()
+					cl, done := memo[mk]
+					memoMu.Unlock()
+					if !done {
+						cl = c38Eval(rec, fmt.Sprintf("%s-r%d", work, i), bs, v, false).Class
+						memoMu.Lock()
+						memo[mk] = cl
+						memoMu.Unlock()
+					}
+					if cl == out.Class {
 						c = append(c, c38Dims[i].name)
 					}
 				}
